@@ -4,7 +4,7 @@ import sys
 from checks.c03 import ModelRegistry
 from sim import runner, wire
 from sim.driver import Driver
-from sim.models import DupGuard, HostModel
+from sim.models import DupGuard, HostModel, sighting_cause
 from sim.net import AF_INET6, FaultConfig
 from sim.svc import SvcRecords, gen_services
 from sim.world import World
@@ -107,7 +107,8 @@ def generate(rng, tier):
 class Release:
     def __init__(self, t_lo, t_hi, packets, src, sock, legacy):
         self.t_lo, self.t_hi, self.packets, self.src, self.sock, self.legacy = t_lo, t_hi, packets, src, sock, legacy
-        self.expect = {}  # ident -> (rr, cls, lo, hi) cls in imm/agg/prot/qu
+        self.expect = {}  # ident -> (rr, cls, lo, hi) cls in imm/agg/prot/qu; "seen multicast" = the sightings log
+        self.expect_lib = {}  # the same with the library's notion of "seen multicast": its cache entry of the record
 
 
 def execute(scenario, seed, overrides=None):
@@ -120,7 +121,7 @@ def execute(scenario, seed, overrides=None):
     try:
         drv = Driver(w, scenario)
         reg = ModelRegistry()
-        st = {"hm": None, "deferred": {}, "releases": [], "t_ready": None}
+        st = {"hm": None, "deferred": {}, "releases": [], "t_ready": None, "sight": {}, "flush_marks": {}, "causes": set()}
 
         def fold_api():
             for e in w.api_log:
@@ -153,18 +154,26 @@ def execute(scenario, seed, overrides=None):
                         if kts and any(kt > r.ttl / 2 for kt in kts):
                             optional = True  # listed several times with TTLs on both sides of half: either way is fine
                         e = cache.e.get(r.ident())
-                        if q.qu and not rel.legacy:
-                            cls, lo, hi = "qu", rel.t_lo, rel.t_hi
-                        elif probe:
-                            cls, lo, hi = "imm", rel.t_lo, rel.t_hi
-                        elif e is not None and t_now_ref - e.created < 1000.0:
-                            g = e.created / 1000.0
-                            cls, lo, hi = "prot", g + 1.0, rel.t_hi + 1.2
-                        elif len(first_q) == 1 and first_q[0].type in IMMEDIATE:
-                            cls, lo, hi = "imm", rel.t_lo, rel.t_hi
-                        else:
-                            cls, lo, hi = "agg", rel.t_lo + 0.02, rel.t_hi + 0.5
-                        rel.expect.setdefault(r.ident(), []).append((r, cls, lo, hi, optional))
+                        seen_lib = e.created if e is not None else None
+                        seen_log = st["sight"].get(r.ident())
+                        for table, seen in ((rel.expect, seen_log), (rel.expect_lib, seen_lib)):
+                            if q.qu and not rel.legacy:
+                                cls, lo, hi = "qu", rel.t_lo, rel.t_hi
+                            elif probe:
+                                cls, lo, hi = "imm", rel.t_lo, rel.t_hi
+                            elif seen is not None and t_now_ref - seen < 1000.0:
+                                cls, lo, hi = "prot", seen / 1000.0 + 1.0, rel.t_hi + 1.2
+                            elif len(first_q) == 1 and first_q[0].type in IMMEDIATE:
+                                cls, lo, hi = "imm", rel.t_lo, rel.t_hi
+                            else:
+                                cls, lo, hi = "agg", rel.t_lo + 0.02, rel.t_hi + 0.5
+                            table.setdefault(r.ident(), []).append((r, cls, lo, hi, optional))
+                        if not (q.qu and not rel.legacy) and not probe and \
+                                (seen_log is not None and t_now_ref - seen_log < 1000.0) != \
+                                (seen_lib is not None and t_now_ref - seen_lib < 1000.0):
+                            st["causes"].add(sighting_cause(cache, st["sight"], st["flush_marks"], r,
+                                                            any(s_.family == AF_INET6 for s_ in w.net.sockets
+                                                                if s_.owner.name == "R")))
             if probe:
                 stats["probes"] += 1
             if rel.legacy:
@@ -179,7 +188,16 @@ def execute(scenario, seed, overrides=None):
                 st["hm"] = HostModel(w.hosts["R"].start_time)
             hm = st["hm"]
             fold_api()
+            if w.net.trace[tx_idx].multicast and len(data) <= wire.MAX_ABS:
+                m2 = wire.try_decode(data)
+                if m2 is not None and m2.is_response:
+                    for r2 in m2.records():
+                        if r2.ttl > 0:
+                            st["sight"][r2.ident()] = t * 1000.0
             msg, eff = hm.on_rx(t, rsock.label, data, v6sock=rsock.family == AF_INET6, src=addr)
+            if eff is not None:
+                for i2 in eff.flushed:
+                    st["flush_marks"][i2] = t * 1000.0
             src_ip = addr[0].replace("::ffff:", "")
             if msg is None or msg.is_response or src_ip == "10.0.0.1":
                 return
@@ -270,13 +288,15 @@ def execute(scenario, seed, overrides=None):
                 return
             del st["deferred"][key]
             a = d.get("relA")
-            if len(d["starts"]) > 1 or a is None or {k: sorted(x[1] for x in v) for k, v in a.expect.items()} != \
-                    {k: sorted(x[1] for x in v) for k, v in rel.expect.items()}:
+            if len(d["starts"]) > 1 or a is None or any(
+                    {k: sorted(x[1] for x in v) for k, v in getattr(a, tb).items()} !=
+                    {k: sorted(x[1] for x in v) for k, v in getattr(rel, tb).items()} for tb in ("expect", "expect_lib")):
                 rel.ambiguous = True
             if a is not None:
                 # the cache may have changed between the two ends of the release interval: either view is possible
-                for ident, alts in a.expect.items():
-                    rel.expect.setdefault(ident, []).extend(alts)
+                for tb in ("expect", "expect_lib"):
+                    for ident, alts in getattr(a, tb).items():
+                        getattr(rel, tb).setdefault(ident, []).extend(alts)
             st["releases"].append(rel)
             stats["tc_trains_released_by_timer"] += 1
 
@@ -312,7 +332,33 @@ def execute(scenario, seed, overrides=None):
     return out
 
 
+class _Sink:
+    def __init__(self):
+        self.items = []
+
+    def add(self, clause, detail, **sig):
+        self.items.append((clause, detail, sig))
+
+
 def _oracle(w, st, stats, out, sc):
+    """First against the statement's notion of 'saw multicast less than a second ago' (the log of multicast sightings);
+    when that fails and the library's notion (its cache entry) explains everything, the deviation is the known
+    sighting-proxy finding; what neither notion explains is a violation."""
+    first = _Sink()
+    _oracle_pass(w, st, dict(stats), first, sc, "expect")
+    second = _Sink()
+    _oracle_pass(w, st, stats, second, sc, "expect_lib")
+    if first.items and not second.items:
+        stats["sighting_proxy_followed"] = stats.get("sighting_proxy_followed", 0) + 1
+        for cause in sorted(st["causes"]) or ["unclassified"]:
+            out.add("C12.sighting-proxy", f"{first.items[0][1]} - the library's timing is the one that follows from its cache "
+                    f"entry instead of the multicast sightings ({cause})", cause=cause)
+        return
+    for clause, detail, sig in (second.items if first.items else []):
+        out.add(clause, detail, **sig)
+
+
+def _oracle_pass(w, st, stats, out, sc, table):
     t0 = w.t0
     t_ready = st["t_ready"]
     if t_ready is None:
@@ -337,7 +383,7 @@ def _oracle(w, st, stats, out, sc):
             ok = False
             why = []
             for rel in rels:
-                for (_, cls, lo, hi, _opt) in rel.expect.get(r.ident(), []):
+                for (_, cls, lo, hi, _opt) in getattr(rel, table).get(r.ident(), []):
                     if getattr(rel, "ambiguous", False):
                         lo, hi = min(lo, rel.t_lo), max(hi, rel.t_hi + 1.2)
                     if lo - EPS <= tx.t <= hi + EPS:
@@ -355,7 +401,7 @@ def _oracle(w, st, stats, out, sc):
     for rel in rels:
         if rel.t_lo <= t_ready or getattr(rel, "ambiguous", False):
             continue
-        for ident, alts in rel.expect.items():
+        for ident, alts in getattr(rel, table).items():
             need = [a for a in alts if a[1] != "qu" and not a[4]]
             r = alts[0][0]
             if not need or r.type == wire.T_NSEC:
